@@ -15,7 +15,7 @@ func init() {
 				Quick: map[string]int{"hmax": 2}, Thorough: map[string]int{"hmax": 3},
 				Reach: []string{"history answered"}, Functions: fns},
 			{Name: "round-trip", Pkg: ".", Files: files, Entry: "VerifIntrospectionRoundTrip", Mode: "seq", Native: true,
-				Reach: []string{"round trip"}, Functions: fns},
+				Reach: []string{"round trip", "services with nothing but node", "empty query type refused"}, Functions: fns},
 		},
 		Assume: []string{
 			"one merged scenario schema (interface, union, enum with a deprecated value, input object with defaults, custom scalar, deprecated field, argument default, mutation root); the type asked for and literal-vs-variable are symbolic choices",
